@@ -148,8 +148,17 @@ fn bond(w: &mut World, who: &str, amount: u128) -> R<Vec<Ev>> {
 fn accrual(w: &World, a: &str) -> Uint256 {
     let g = reward_state(w).global_index.atomics().u128();
     let h = reward_holder(w, a);
-    Uint256::from(g.saturating_sub(h.index.atomics().u128())) * Uint256::from(h.balance.u128())
-        + Uint256::from(h.pending_rewards.atomics().u128())
+    let total = Uint256::from(g.saturating_sub(h.index.atomics().u128())) * Uint256::from(h.balance.u128())
+        + Uint256::from(h.pending_rewards.atomics().u128());
+    // the AccruedRewards query is how a holder observes its accrual: it must report the whole-unit part of it
+    let reported = reward_accrued(w, a);
+    if Uint256::from(reported) != total / Uint256::from(ONE) {
+        crate::obs::qfail::<()>(
+            "reward AccruedRewards misreports",
+            format!("{} is owed {} e-18 (pending {} + (global {} - index {}) x balance {}) but AccruedRewards reports {}", a, total, h.pending_rewards, g, h.index, h.balance, reported),
+        );
+    }
+    total
 }
 
 /// deliver `r` of the reward coin and let the dispatcher update the index (a message it may send at any time)
